@@ -211,6 +211,15 @@ def long_texts(n):
         ("ternary-list", "let x = 0;\nlet y = x == 0 ? [%s].len() : 0;\nprint(y);" % items, "%d\n" % n),
         ("and-list", "let x = 0;\nlet y = x == 0 && [%s].len();\nprint(y);" % items, "%d\n" % n),
         ("or-list", "let x = nil;\nlet y = x || [%s].len();\nprint(y);" % items, "%d\n" % n),
+        # operand stack depth grows with n: every element of a literal is on the stack before the collecting
+        # instruction runs, on top of whatever the enclosing expressions and locals already hold
+        ("deep-list-arg", "fn count(l) { return l.len(); }\nfn f(a) {\nlet l = 1;\nreturn count([%s]) + l + a;\n}\nprint(f(1));" % items,
+         "%d\n" % (n + 2)),
+        ("deep-nested-list", "let z = [7, 8, [9, [%s]]];\nprint(z[2][1].len());" % items, "%d\n" % n),
+        ("deep-tuple", "fn f() {\nlet a = 1;\nlet b = 2;\nlet t = (%s);\nreturn t.len() + a + b;\n}\nprint(f());" % items, "%d\n" % (n + 3)),
+        ("deep-map", "fn f() {\nlet a = 1;\nlet m = {%s};\nreturn m.len() + a;\n}\nprint(f());" % ", ".join("%d: 1" % i for i in range(n)),
+         "%d\n" % (n + 1)),
+        ("deep-interpolation", "fn f(p) {\nlet a = 1;\nlet s = '%s';\nreturn s.len() + a;\n}\nprint(f(0));" % ("${p}" * n), "%d\n" % (n + 1)),
     ]
 
 
